@@ -128,7 +128,7 @@ def coherent_dedispersion(z, DM, /, *, ref_freq=None, chirp=None):
     delay_bot = DM.sample_delay(z.min_freq, ref_freq, z.sample_rate)
 
     start = math.ceil(-min(0, delay_top, delay_bot))
-    stop = x.shape[0] - math.ceil(+max(0, delay_top, delay_bot))
+    stop = max(0, x.shape[0] - math.ceil(+max(0, delay_top, delay_bot)))
 
     return type(z).like(z, x)[start:stop]
 
